@@ -9,6 +9,7 @@ import (
 	"encoding/json"
 	"errors"
 	"fmt"
+	"io"
 	"math"
 	"strconv"
 	"strings"
@@ -22,7 +23,11 @@ type tspCase struct {
 	N       int    `json:"n"`
 	Weights []int  `json:"weights_lower_triangle_row_major"` // w(i,j), j<i, index i(i-1)/2+j
 	FaultAt int    `json:"fault_at_write,omitempty"`
-	Kind    string `json:"fault_kind,omitempty"`
+	Kind    string `json:"fault_kind,omitempty"` // a trailing "+sw": the writer also implements io.StringWriter
+	// StringWriter: fault-free run through a writer that also implements io.StringWriter; Nested: the weight function
+	// calls LIB itself (on its own writer) before answering
+	StringWriter bool `json:"string_writer,omitempty"`
+	Nested       bool `json:"weights_call_LIB,omitempty"`
 }
 
 type faultWriter struct {
@@ -34,6 +39,12 @@ type faultWriter struct {
 }
 
 var errInjected = errors.New("injected write failure")
+
+// swWriter is the same fault-injecting writer that also implements io.StringWriter (as *os.File and *bufio.Writer
+// do): code that takes the WriteString path must report failures all the same. Both entry points count as writes.
+type swWriter struct{ *faultWriter }
+
+func (w swWriter) WriteString(s string) (int, error) { return w.faultWriter.Write([]byte(s)) }
 
 func (w *faultWriter) Write(p []byte) (int, error) {
 	idx := w.writes
@@ -64,15 +75,42 @@ func tspWeightsFn(tc tspCase, calls *[][2]int) func(i, j int) int {
 	}
 }
 
+func tspVariant(tc tspCase) string {
+	v := ""
+	if tc.StringWriter {
+		v += " (writer with WriteString)"
+	}
+	if tc.Nested {
+		v += " (weights call LIB)"
+	}
+	return v
+}
+
 func evalTSP(tc tspCase) *Failure {
 	mk := func(cl, what string) *Failure {
 		k := "tsp"
-		return &Failure{Class: "tsp/" + cl, What: fmt.Sprintf("n=%d weights=%v fault=%s@%d: %s", tc.N, tc.Weights, tc.Kind, tc.FaultAt, what), Kind: k, Replay: tc}
+		return &Failure{Class: "tsp/" + cl, What: fmt.Sprintf("n=%d weights=%v fault=%s@%d%s: %s", tc.N, tc.Weights, tc.Kind, tc.FaultAt, tspVariant(tc), what), Kind: k, Replay: tc}
 	}
 	var calls [][2]int
-	w := &faultWriter{at: tc.FaultAt, kind: tc.Kind}
+	w := &faultWriter{at: tc.FaultAt, kind: strings.TrimSuffix(tc.Kind, "+sw")}
+	var dst io.Writer = w
+	if tc.StringWriter || strings.HasSuffix(tc.Kind, "+sw") {
+		dst = swWriter{w}
+	}
+	wf := tspWeightsFn(tc, &calls)
+	if tc.Nested {
+		// the weight function itself writes another (smaller) problem with LIB before it answers
+		inner := wf
+		wf = func(i, j int) int {
+			var junk bytes.Buffer
+			if e := tsp.LIB(&junk, 3, func(a, b int) int { return -(a*10 + b) }); e != nil || !strings.Contains(junk.String(), "DIMENSION: 3") {
+				panic(fmt.Sprintf("inner LIB call failed: %v %q", e, junk.String()))
+			}
+			return inner(i, j)
+		}
+	}
 	var err error
-	if msg, p := try(func() { err = tsp.LIB(w, tc.N, tspWeightsFn(tc, &calls)) }); p {
+	if msg, p := try(func() { err = tsp.LIB(dst, tc.N, wf) }); p {
 		return mk("panic", msg)
 	}
 	for _, c := range calls {
@@ -80,7 +118,7 @@ func evalTSP(tc tspCase) *Failure {
 			return mk("weights-called-out-of-domain", fmt.Sprintf("weights(%d,%d)", c[0], c[1]))
 		}
 	}
-	if tc.Kind != "" {
+	if strings.TrimSuffix(tc.Kind, "+sw") != "" {
 		if !w.fired {
 			return nil // fault position beyond the writes of this run
 		}
@@ -203,6 +241,14 @@ func runC20(c *Ctx) {
 				if d.n >= 2 {
 					c.Nontrivial(1)
 				}
+				if idx%5 == 0 || total < 500 {
+					t2 := tc
+					t2.StringWriter = true
+					c.Check(func() *Failure { return evalTSP(t2) })
+					t3 := tc
+					t3.Nested = true
+					c.Check(func() *Failure { return evalTSP(t3) })
+				}
 			}
 		})
 		c.Count(fmt.Sprintf("fault_free_n%d_values%d", d.n, len(d.vals)), total)
@@ -233,6 +279,14 @@ func runC20(c *Ctx) {
 			tc := tspCase{N: n, Weights: w}
 			c.Check(func() *Failure { return evalTSP(tc) })
 			c.Nontrivial(1)
+			if n <= 37 {
+				tn := tc
+				tn.Nested = true
+				c.Check(func() *Failure { return evalTSP(tn) })
+				ts := tc
+				ts.StringWriter = true
+				c.Check(func() *Failure { return evalTSP(ts) })
+			}
 			if n <= 12 || (variant == 1 && n >= 128 && n <= 130) || (c.Thorough() && variant <= 1) {
 				// fault positions for this run: all of them for n <= 12; for n around 128 the first and last 12 writes
 				// and every 61st in between (stated bound)
@@ -303,6 +357,33 @@ func runC20(c *Ctx) {
 					maxW = int64(W)
 				}
 				c.mu.Unlock()
+				// the number of write calls can differ when the writer offers WriteString: count them separately
+				recSW := &faultWriter{}
+				var calls2 [][2]int
+				Wsw := 0
+				if e := func() (err error) {
+					defer func() {
+						if r := recover(); r != nil {
+							err = fmt.Errorf("panic %v", r)
+						}
+					}()
+					return tsp.LIB(swWriter{recSW}, n, tspWeightsFn(base, &calls2))
+				}(); e == nil {
+					Wsw = recSW.writes
+				}
+				for p := 0; p < Wsw; p++ {
+					for _, kind := range []string{"perm-zero+sw", "transient-zero+sw", "transient-short+sw"} {
+						if n == 5 && idx%9 != 0 {
+							continue
+						}
+						tc := tspCase{N: n, Weights: w, FaultAt: p, Kind: kind}
+						c.Check(func() *Failure { return evalTSP(tc) })
+						c.Nontrivial(1)
+						c.mu.Lock()
+						faultRuns++
+						c.mu.Unlock()
+					}
+				}
 				for p := 0; p < W; p++ {
 					for _, kind := range []string{"perm-zero", "perm-short", "transient-zero", "transient-short"} {
 						tc := tspCase{N: n, Weights: w, FaultAt: p, Kind: kind}
